@@ -167,6 +167,12 @@ class Gen:
                     g = Function("g", [arg, arg2], dimension_from_vec(tot, Fraction(0), rng))
                     return Derivative(g(arg, arg2), (arg, n), (arg2, m))
                 # d^n f / d arg^n has dimension vec - n*av; compensate so the node has dimension vec
+                if rng.random() < 0.3:
+                    # differentiate with respect to an applied dimensioned function q(s) (Lagrangian style)
+                    inner = Function("q", [self.symbol(rand_dimvec(rng)[0])], dimension_from_vec(av, Fraction(0), rng))
+                    var = inner(*inner.arguments)
+                    g = Function("g", [var], dimension_from_vec(tuple(x + n * y for x, y in zip(vec, av)), Fraction(0), rng))
+                    return Derivative(g(var), (var, n))
                 g = Function("g", [arg], dimension_from_vec(tuple(x + n * y for x, y in zip(vec, av)), Fraction(0), rng))
                 return Derivative(g(arg), (arg, n))
             return f(arg)
@@ -187,6 +193,11 @@ class Gen:
         return self.leaf(vec)
 
 
+def _F(name, args, dim):
+    from symplyphysics import Function  # pylint: disable=import-outside-toplevel
+    return Function(name, args, dim)
+
+
 def boundary(rng, k=None):
     from symplyphysics import Quantity, Symbol  # pylint: disable=import-outside-toplevel
     t = Symbol("t", units.time)
@@ -202,6 +213,8 @@ def boundary(rng, k=None):
         lambda: Min(zl, t, q5s, evaluate=False),
         lambda: Max(0, x, Quantity(3 * units.meter), evaluate=False),
         lambda: 0 + x,
+        lambda: Derivative(_F("L", [_F("v", [t], units.velocity)(t)], units.energy)(_F("v", [t], units.velocity)(t)),
+                           _F("v", [t], units.velocity)(t)),
         lambda: Max(0, x, evaluate=False),
         lambda: Min(0, x, evaluate=False),
         lambda: Max(zl, x, Quantity(2 * units.meter), evaluate=False),
